@@ -62,6 +62,9 @@ structure FloatOps where
   eq : Nat → Nat → Bool
   lt : Nat → Nat → Bool
   le : Nat → Nat → Bool
+  /-- conversions used by the specification of casts only (the folder itself folds no cast) -/
+  ofInt : Int → Nat := fun _ => 0
+  truncToInt : Nat → Option Int := fun _ => none
 
 /-- `str::encode_utf16` -/
 def utf16 : List Char → List Nat
